@@ -320,7 +320,7 @@ func runEncrypt(n, seed int, metaF, blobsF map[string]byte) (*encResult, error) 
 			w.logMu.Lock()
 			before := w.injected
 			w.logMu.Unlock()
-			out := watchdog(20*time.Second, func() string {
+			out := watchdog(2*opTimeout, func() string {
 				sb, err := blobserver.Receive(ctx, w.sto, br, bytes.NewReader(v))
 				if err != nil {
 					return "err"
@@ -454,7 +454,7 @@ func runEncrypt(n, seed int, metaF, blobsF map[string]byte) (*encResult, error) 
 	}
 	check(w.sto, "live-store-after-failures-stopped")
 	// the store's own recovery: a fresh instance, empty index, same two stores
-	out := watchdog(60*time.Second, func() string {
+	out := watchdog(20*time.Second, func() string {
 		if err := w.start(); err != nil {
 			return "err " + err.Error()
 		}
@@ -516,7 +516,12 @@ func probeEncrypt(w []string) string {
 func encryptPrograms(r *hk.Run) {
 	rnd := r.R.Fork()
 	n := 215 // two compactions: at the 101st receive and 100 receives later
+	hangs := 0
 	run := func(label, mf, bf string) (string, bool) {
+		if hangs >= 2 {
+			r.Hit("encrypt:skipped-after-hangs")
+			return "", false
+		}
 		line := fmt.Sprintf("probe encrypt %d %d %s %s", n, 1+rnd.Intn(1000), mf, bf)
 		out := hk.Guard(func() string { return probeOp(strings.Fields(line)) })
 		r.ImplOnly("encrypt-program")
@@ -528,6 +533,9 @@ func encryptPrograms(r *hk.Run) {
 			return out, false
 		}
 		_, list, _ := strings.Cut(strings.TrimSpace(out[i+1:]), " ")
+		if strings.Contains(list, "hang") || strings.Contains(list, "did-not-finish") {
+			hangs++
+		}
 		for _, v := range strings.Split(list, ";") {
 			if v == "" {
 				continue
